@@ -45,20 +45,25 @@ def constText (name : String) : Py (List Char) :=
   | some t => fill t []
   | none => throw .attributeError
 
+def argOf (env : Env) (e : String) : Option Arg := (env.find? (·.1 == e)).map (·.2)
+
 def envArgs (env : Env) : List String → Py (List Arg)
   | [] => pure []
-  | e :: es => match env.find? (·.1 == e) with
-    | some (_, a) => do let r ← envArgs env es; pure (a :: r)
+  | e :: es => match argOf env e with
+    | some a => do let r ← envArgs env es; pure (a :: r)
     | none => throw .other                       -- an argument expression the model does not know
+
+/-- template and argument expressions of the call `packets.<tmpl>.format(…)` in `method`, from the generated data -/
+def callData (method tmpl : String) : Option (Template × List String) :=
+  match wiringRow method, templateNamed tmpl with
+  | some row, some t => (row.2.2.2.2.2.find? (·.1 == tmpl)).map (fun c => (t, c.2))
+  | _, _ => none
 
 /-- `packets.<tmpl>.format(<wired args>)` as it occurs in `method` -/
 def formatCall (method tmpl : String) (env : Env) : Py (List Char) :=
-  match wiringRow method, templateNamed tmpl with
-  | some row, some t =>
-    match row.2.2.2.2.2.find? (·.1 == tmpl) with
-    | some (_, argExprs) => do let args ← envArgs env argExprs; fill t args
-    | none => throw .other
-  | _, _ => throw .other
+  match callData method tmpl with
+  | some (t, argExprs) => do let args ← envArgs env argExprs; fill t args
+  | none => throw .other
 
 def routesThroughSetLength (method : String) : Bool := ((wiringRow method).map (·.2.2.2.2.1)).getD false
 def guardStyle (method : String) : String := ((wiringRow method).map (·.2.2.2.1)).getD "none"
@@ -138,7 +143,7 @@ inductive Req where
   | setDeviceName (name : List Char)
   | getSchedules
   | deleteSchedule (id : List Char)
-  | createSchedule (start stop : List Char) (days : List Nat)
+  | createSchedule (start stop : List Char) (isSet : Bool) (days : List Nat)
   | stop
   | setPosition (pos : Int)
   | getShutterState
@@ -218,11 +223,11 @@ def prog (cfg : Cfg) (now : Int) (zoneOff : Int) : Req → Prog
   | .getSchedules => simpleOp cfg now "get_schedules" "GET_SCHEDULES_PACKET" (pure []) (fun r => pure (.schedules r))
   | .deleteSchedule id =>
     simpleOp cfg now "delete_schedule" "DELETE_SCHEDULE_PACKET" (pure [("schedule_id", .s id)]) (fun r => pure (.base r))
-  | .createSchedule start stop days =>
+  | .createSchedule start stop isSet days =>
     simpleOp cfg now "create_schedule" "CREATE_SCHEDULE_PACKET"
       (do let s ← timeToHexFixed zoneOff now start
           let e ← timeToHexFixed zoneOff now stop
-          let w ← if days.length > 0 then weekdaysToHex (.coll true days) else constText "NON_RECURRING_SCHEDULE"
+          let w ← if days.length > 0 then weekdaysToHex (.coll isSet days) else constText "NON_RECURRING_SCHEDULE"
           let rec_ ← formatCall "create_schedule" "SCHEDULE_CREATE_DATA_FORMAT"
             [("weekdays", .s w), ("start_time_hex", .s s), ("end_time_hex", .s e)]
           pure [("new_schedule", .s rec_)])
